@@ -72,6 +72,9 @@ func add(
 				// avoid network blocking
 				go target.EvAdd(e, names, nil)
 			}
+		} else if target.IsLocal() {
+			// keep the order of a burst of events, forked mutations can overtake
+			target.EvAdd(e, names, e.Args)
 		} else {
 			// TODO source tx ID missings
 			go target.EvAdd(e, names, e.Args)
@@ -127,6 +130,9 @@ func remove(
 				// avoid network blocking
 				go target.EvRemove1(e, targetState, nil)
 			}
+		} else if target.IsLocal() {
+			// keep the order of a burst of events, forked mutations can overtake
+			target.EvRemove1(e, targetState, e.Args)
 		} else {
 			// TODO source tx ID missing
 			go target.EvRemove1(e, targetState, e.Args)
